@@ -335,6 +335,11 @@ class ItemHistoryEngine(Engine):
                 if cname not in local_names:
                     bad('dangling-call', f'{it.name} calls {cname!r} but no item of that name exists in the graph')
                 elif cname not in succ:
+                    # the back edge of a recursion cycle is removed on purpose
+                    import networkx as nx  # pylint: disable=import-outside-toplevel
+                    callee = next((x for x in items if x.local_name.split('#')[-1].lower() == cname), None)
+                    if callee is not None and nx.has_path(sched.sgraph._graph, callee, it):
+                        continue
                     bad('call-not-a-dependency', f'{it.name} calls {cname!r} but the graph has no edge to it')
         # removed kernels are gone, duplicated kernels exist next to the original
         # (not judged right after ModuleWrap: until DependencyTransformation has added the imports of the
